@@ -55,18 +55,25 @@ CLAIMED = {
         text='Theorems about the model of op_rel_eval against an arbitrary evaluator of the sub-terms (hence for every e, trace set and state): '
              'reval_out_of_range (#f, e not evaluated, state = after the offset), reval_in_range (exactly e evaluated with every trace moved by the '
              'offset, then restore), reval_neutral (every index and the saved-position stack afterwards equal before, via restore_exact), '
-             'shift_compose ((e@j)@k positions = e@(j+k) positions when intermediate and final are in range). Correspondence: random e of the '
+             'shift_compose ((e@j)@k positions = e@(j+k) positions when intermediate and final are in range). Global (Props/C03_Global.lean over '
+             'Lemmas/Tid.lean + Bal.lean): reval_position_neutral — for EVERY body e, whenever (reval e k) completes under the restricted evaluator '
+             'evalT (eval without unload / set-scope / unset-scope, proved a restriction of eval) every trace index equals its value before and no '
+             'saved position is pending; the premises of reval_neutral are theorems (evalT_T: trace ids kept, evalT_B: stack balanced). Correspondence: random e of the '
              'trace-reading fragment x (position,k) pairs on 1-2 traces; oracle = (reval e k) vs e after (step k) on the implementation.',
-        ref='DESIGN.md §6 C03', note='reval_neutral assumes e keeps the set of loaded traces and the saved-position stack discipline (C17); virtual signals and user functions change caches/heap and are covered by the correspondence.',
-        technique='Lean 4 proof (operator-level laws for every sub-evaluator) + correspondence'),
+        ref='DESIGN.md §6 C03', note='The global theorem assumes distinct trace ids (decidable; holds of every state the driver builds) and speaks about evaluations that do not execute unload / set-scope / unset-scope; the evidence records per correspondence request whether the restricted evaluator completes on it (theorem_coverage.position_theorem_applies). Exactness of the value (e at i+k) is the operator-level reval_in_range plus the correspondence.',
+        technique='Lean 4 proof (operator-level laws for every sub-evaluator; global position neutrality by induction on the fuel through every operator) + correspondence'),
     'C04': dict(
         text='Theorems against an arbitrary evaluator of the condition: findLoop_spec / find_spec (by induction on the distance to the end: the '
              'hits are exactly the indices from the current one to MAX-INDEX at which the condition is truthy, ascending, index restored), '
              'hits_ascending, scan_restores (find/g and whenever put every trace back), scanLoop_step (condition once, body once iff truthy, '
-             'lock-step advance, stop when the first trace ends), length_of_list for count. Correspondence: random conditions x bodies x start '
+             'lock-step advance, stop when the first trace ends), length_of_list for count. Global (Props/C04_Global.lean, Props/C04_Neutral.lean '
+             'over Lemmas/Tid.lean, Neu.lean): whenever_position_neutral / findG_position_neutral for every condition and body, and '
+             'completed_evaluation_position_neutral / pipeline_position_neutral — every evaluation the restricted evaluator evalN completes (eval '
+             'without step, sample-at, unload, set-scope, unset-scope; a restriction of eval) leaves every (trace id, index) pair and the '
+             'saved-position stack as they were, which discharges the Neutral premise of find_spec for every such condition. Correspondence: random conditions x bodies x start '
              'positions on 1-2 traces; oracle = the condition evaluated independently at every visited position by explicit stepping.',
-        ref='DESIGN.md §6 C04', note='find_spec is for one trace and conditions that do not change the state (Neutral); whenever/find/g over several traces are covered by scanLoop_step + scan_restores and the correspondence.',
-        technique='Lean 4 proof (loop invariant by induction) + correspondence'),
+        ref='DESIGN.md §6 C04', note='find_spec is for one trace and position-neutral conditions (now a theorem for every condition evalN completes); find, count, find/g, whenever and reval are all inside evalN. Distinct trace ids assumed (decidable). Completeness and order of the hits for several traces are the operator-level theorems plus the correspondence.',
+        technique='Lean 4 proof (loop invariant by induction; global position neutrality by induction on the fuel through every operator) + correspondence'),
     'C13': dict(
         text='Two layers. Concrete model: read_hit / read_miss (a read of a virtual signal looks the current timestamp up; a hit returns the '
              'cached value and changes nothing, a miss evaluates the body and inserts exactly that pair), defsig_listed, kernel-evaluated '
